@@ -35,7 +35,8 @@ def applyEntry (cfg : Cfg) (m : Index) (e : Entry) : Index :=
 /-- replay of an entry stream -/
 def replay (cfg : Cfg) (es : List Entry) : Index := es.foldl (applyEntry cfg) []
 
-def metadataKey : Bytes := "__swamp_meta__".toUTF8.toList
+/-- `MetadataEntryKey` = "__swamp_meta__" -/
+def metadataKey : Bytes := [0x5f, 0x5f, 0x73, 0x77, 0x61, 0x6d, 0x70, 0x5f, 0x6d, 0x65, 0x74, 0x61, 0x5f, 0x5f]
 
 /-- `LoadIndex`'s V2 fallback: first metadata entry with the reserved key and non-empty data -/
 def metaName (es : List Entry) : Bytes :=
